@@ -323,7 +323,7 @@ theorem covered_flt (last fst : Bool) (hash neg : Bool) (ip fp : Txt) (e : Optio
     have := (goodOp_flt hash neg ip fp e f hok).any last
     cases fst with
     | true => simpa [joinInner] using this.toFirst
-    | false => simpa [joinInner] using this.notFirst
+    | false => simpa [joinInner] using this.toRest
   · cases e <;> cases f <;> simp [processOperand, processImmediate, fltTok, expectOp, expTok, optMap, List.append_assoc]
 
 end OsacaVerif.ParseA64
